@@ -36,6 +36,38 @@ def p10b_accept_backoff(ctx):
         return r
     oks = ret_classes(b, ok_dst, lambda e: e.kind in ("unwind", "ydrop"))
     r.add(f, "accept Ok ⇒ return Ok(socket)", bool(oks) and all(c == "ok" for c, d, rb in oks), where(b, abb))
+    # the back-off cell: the variable (or field of a local) that is doubled
+    def norm(o):
+        o = peel_var(o)
+        if o[0] == "var":
+            return ("var", o[1])
+        if o[0] == "field":
+            return ("field", norm(o[1]), o[2])
+        if o[0] == "cast":
+            return norm(o[1])
+        return o
+
+    cell = None
+    dbl = False
+    for bb in sorted(b.live_blocks()):
+        for st in b.blocks[bb]["stmts"]:
+            if st["k"] != "assign" or any(e[0] != "f" for e in st["pl"]["p"]):
+                continue
+            me = norm(b.origin_place(st["pl"]))
+            if me[0] not in ("var", "field"):
+                me = ("var", st["pl"]["l"]) if not st["pl"]["p"] else me
+
+            def doubling(x, me=me):
+                if x[0] != "bin" or x[1] not in ("Shl", "ShlUnchecked", "Mul", "MulWithOverflow", "MulUnchecked"):
+                    return False
+                k = const_int(x[3])
+                return norm(x[2]) == me and ((x[1].startswith("Shl") and k == 1) or (x[1].startswith("Mul") and k == 2))
+            o = b.origin_rvalue(st["rv"])
+            if origin_mentions(o, doubling) and b.locals[st["pl"]["l"]].get("user", True) is not False:
+                cell = me
+                dbl = True
+    is_cell = lambda o: cell is not None and norm(o) == cell
+    is_max = lambda o: (access_path(peel(o)) or "").endswith("self.max_backoff_ms")
     # give-up test
     giveup = set()
     cmp_ok = False
@@ -44,15 +76,17 @@ def p10b_accept_backoff(ctx):
         if info and info["kind"] == "bool":
             o = peel_var(info["on"])
             if o[0] == "bin" and o[1] in ("Gt", "Ge", "Lt", "Le"):
-                l, rr = origin_str(o[2]), origin_str(o[3])
-                if "backoff" in l and "max_backoff_ms" in rr and o[1] in ("Gt", "Ge"):
-                    cmp_ok = True
+                if is_cell(o[2]) and is_max(o[3]) and o[1] in ("Gt", "Ge"):
                     want = True
-                elif "max_backoff_ms" in l and "backoff" in rr and o[1] in ("Lt", "Le"):
-                    cmp_ok = True
+                elif is_max(o[2]) and is_cell(o[3]) and o[1] in ("Lt", "Le"):
                     want = True
+                elif is_cell(o[2]) and is_max(o[3]) and o[1] in ("Lt", "Le"):
+                    want = False
+                elif is_max(o[2]) and is_cell(o[3]) and o[1] in ("Gt", "Ge"):
+                    want = False
                 else:
                     continue
+                cmp_ok = True
                 for e in b.succ[bb]:
                     if info["arms"].get(e.dst) == [want]:
                         giveup.add((e.src, e.dst))
@@ -62,18 +96,10 @@ def p10b_accept_backoff(ctx):
     # retry path: sleep(backoff) then double, then accept again
     sl = calls_in([b], "tokio::time::sleep")
     good = False
-    dbl = False
     for _, sbb, stt in sl:
-        o = arg_origin(b, stt, 0)
-        if "backoff" in origin_str(o) and "from_millis" in origin_str(o):
+        o = peel(arg_origin(b, stt, 0))
+        if is_call_origin(o, "Duration::from_millis") and o[2] and is_cell(o[2][0]):
             good = True
-    for bb in b.live_blocks():
-        for st in b.blocks[bb]["stmts"]:
-            if st["k"] == "assign" and st["rv"]["k"] == "bin" and st["rv"]["op"] in ("Shl", "ShlUnchecked", "Mul", "MulWithOverflow") and not st["pl"]["p"]:
-                o = b.origin_rvalue(st["rv"])
-                k = const_int(o[3])
-                if "backoff" in origin_str(o[2]) and ((st["rv"]["op"].startswith("Shl") and k == 1) or (st["rv"]["op"].startswith("Mul") and k == 2)):
-                    dbl = True
     r.add(f, "retry sleeps for the current back-off (milliseconds)", good, where(b, sl[0][1]) if sl else where(b, abb))
     r.add(f, "back-off doubles per failed attempt", dbl, where(b, abb))
     p = path_to(b, [err_dst], lambda x: x == abb, blocked_edges=lambda e: e.kind in ("unwind", "ydrop") or (e.src, e.dst) in giveup)
@@ -216,8 +242,10 @@ def s12_config_setters(ctx):
                 base_ty = b.local_ty(st["pl"]["l"])
                 through_conf = "conf" in flds[:-1]
                 cfg_base = any(x in base_ty.split("<")[0] for x in ("storage::bitcask::config::Config", "storage::bitcask::config::MergeStrategy", "storage::bitcask::config::MergeTriggers", "storage::bitcask::config::MergeThresholds"))
-                if (through_conf or cfg_base) and b.name.startswith("storage::bitcask::config::Config::") and b.origin_rvalue(st["rv"])[0] == "arg":
-                    continue  # a setter by shape (stores its own parameter), also one added later
+                rvo = b.origin_rvalue(st["rv"])
+                from_param = rvo[0] == "arg" or (bool(origin_mentions(rvo, lambda x: x[0] == "arg" and x[1] != "self")) and flds[-1] == b.name.split("::")[-1])
+                if (through_conf or cfg_base) and b.name.startswith("storage::bitcask::config::Config::") and from_param:
+                    continue  # a setter by shape (stores its own parameter, possibly converted), also one added later
                 if through_conf or cfg_base:
                     n_w += 1
                     r.bad(fam_name(b), "writes setting %s" % ".".join(flds), short_span(st.get("span")), "a setting is rewritten outside the setters: the store does not run with the configuration it was given (a threshold or limit the user chose is silently replaced)")
@@ -310,6 +338,11 @@ def v7_argument_parsers(ctx):
         f = fam_name(b)
         nx = calls_in([b], "std::iter::Iterator::next")
         if len(nx) != 1:
+            # one reader written in terms of the other: look at it with its sibling written out
+            import inline
+            b = inline.expanded_view(prog, b, {"Parser::get_string", "Parser::get_bytes"} - {"::".join(fn.split("::")[-2:])})
+            nx = calls_in([b], "std::iter::Iterator::next")
+        if len(nx) != 1:
             r.unrec(f, "frames.next() ×%d" % len(nx), short_span(b.span), "expected one")
             continue
         _, nbb, nt = nx[0]
@@ -359,6 +392,10 @@ def v7_argument_parsers(ctx):
         if fin:
             _, fbb, ft = fin[0]
             good_edges = set()
+            # finish() -> Result: `finish()?` / match on Ok
+            ok_e, err_e, _sw = try_edges(b, fbb)
+            for e in ok_e or []:
+                good_edges.add((e.src, e.dst))
             for bb in b.live_blocks():
                 info = b.switch_info(bb)
                 if info and info["kind"] == "bool":
@@ -374,4 +411,35 @@ def v7_argument_parsers(ctx):
             classes = {c for c, d, rb in ret_classes(b, 0, lambda e: e.kind == "unwind" or (e.src, e.dst) in good_edges)}
             ok_wo = "ok" not in classes and bool(good_edges)
         r.add(fam_name(b), "succeeds only if Parser::finish() says nothing follows", bool(fin) and ok_wo, short_span(b.span))
+    # finish() itself: 'nothing follows' (true / Ok) only when the iterator is exhausted
+    fb = prog.find("net::command::Parser::finish")
+    if len(fb) != 1:
+        r.unrec("net::command::Parser::finish", "body", "src/net/command.rs", "found %d" % len(fb))
+        return r
+    fb = fb[0]
+    f = fam_name(fb)
+    nx = calls_in([fb], "std::iter::Iterator::next")
+    if len(nx) != 1:
+        r.unrec(f, "frames.next() ×%d" % len(nx), short_span(fb.span), "expected one")
+        return r
+    _, nbb, nt = nx[0]
+    site = (fb.path, nbb)
+    none_e = set()
+    for bb in fb.live_blocks():
+        info = fb.switch_info(bb)
+        if info and info["kind"] == "variant":
+            o = peel_var(info["on"])
+            if o[0] == "call" and o[3] == site:
+                for e in fb.succ[bb]:
+                    if info["arms"].get(e.dst) == ["None"]:
+                        none_e.add((e.src, e.dst))
+    if none_e:
+        rs = [(c, ret_origin(fb, d)) for c, d, rb in ret_classes(fb, 0, lambda e: e.kind == "unwind" or (e.src, e.dst) in none_e)]
+        good = bool(rs) and all(c == "err" or (c == "const" and const_int(o2) == 0) for c, o2 in rs)
+        rs2 = [(c, ret_origin(fb, d)) for c, d, rb in ret_classes(fb, 0, lambda e: e.kind == "unwind")]
+        good = good and any(c == "ok" or (c == "const" and const_int(o2) == 1) for c, o2 in rs2)
+    else:
+        rs = [ret_origin(fb, d) for c, d, rb in ret_classes(fb, 0, lambda e: e.kind == "unwind")]
+        good = bool(rs) and all(is_call_origin(peel(o), "Option::is_none") and peel(o)[2] and peel_var(peel(o)[2][0])[0] == "call" and peel_var(peel(o)[2][0])[3] == site for o in rs if o is not None) and None not in rs
+    r.add(f, "'nothing follows' only when frames.next() is None", good, where(fb, nbb))
     return r
